@@ -79,6 +79,8 @@ def run_registry(acc, srv, key, n_pairs, tier):
         # administrative actions between registration and listing (the factory's own migration among them)
         for _ in range(rng.choice([1, 2, 3])):
             rw.admin_noise(rng, acc, kind=rng.choice(["migrate_factory", "migrate_factory", "migrate_pair", "update_config_code"]))
+        if rw.model and rng.random() < 0.5:
+            rw.break_pair(rng, acc)     # one listed pair no longer answers pair queries (migrated to foreign code by mistake)
     created = list(rw.model)
     limits = [None] + list(range(1, 41)) + [64, 255, 256, 257, 512, 1025, 65536, 1 << 31, (1 << 32) - 1]   # any page size
     for limit in limits:
@@ -164,6 +166,7 @@ def floors(acc, tier):
     _w.need(acc, msgs, "registries_over_30", 4)
     _w.need(acc, msgs, "pairs_with_huge_whitelist", 6)
     _w.need(acc, msgs, "admin_noise_migrate_factory_ok", 20)
+    _w.need(acc, msgs, "admin_noise_break_pair_ok", 8)
     return msgs
 
 
